@@ -1,7 +1,7 @@
 PROP = {
         "modules": ["Discv5Model.Props.C05"],
         "lemma_modules": ["Discv5Model.Proofs.PacketLemmas", "Discv5Model.Proofs.BytesLemmas"],
-        "engines": [{"name": "packet", "quick": 1500, "thorough": 40000}],
+        "engines": [{"name": "packet", "quick": 1500, "thorough": 150000}],
         "rule": "packet engine: each case = 3 encodes of well-formed packets at boundary sizes + 4 decodes of "
                 "hand-built unmasked headers with mutated fields (flag, auth-size, size bytes, record, "
                 "protocol id/version, truncation/extension, foreign id) + 2 random byte strings 0..1400; "
